@@ -65,10 +65,10 @@ CHECKS = {
          "spnego.SPNEGOKRB5Authenticate is driven through httptest with ~56 000 Authorization header values per quick run (absent/other schemes/garbage, every framing of valid and defective reference-minted AP-REQs incl. AP-REP and KRB-ERROR mech tokens, empty and foreign mech lists, every prefix and per-byte substitutions of valid tokens, request sequences with and without working/failing session managers); the five token-verification APIs receive the same tokens directly. Soundness: the inner handler ran or an API reported success only if some AP-REQ found at any offset of the decoded header is accepted by the reference acceptor, and the context identity equals the ticket's sealed identity; refusals must be 401 + WWW-Authenticate: Negotiate (5xx only when the harness session store failed). Completeness is demanded only for canonical reference-encoded tokens.",
          "Trusts ref/accept, ref/kmsg framing encoders and the lenient extractor (tries every 0x6e offset, BER tolerated, so it never demands more than the statement). Tokens accepted only under a framing-agnostic reading of mutated wrapper lengths are counted, not judged.",
          "5.C03"),
- "C04": ("runtime monitor (panic guard, allocation meter on runtime/metrics confirmed by ReadMemStats and attributed by a profiled re-run, hang watchdog, RLIMIT_AS in a sacrificial executor process) around 111 externally reachable entry points fed with deterministic mutations of valid inputs",
+ "C04": ("runtime monitor (panic guard, allocation meter on runtime/metrics confirmed by ReadMemStats and attributed by a profiled re-run, hang watchdog, RLIMIT_AS in a sacrificial executor process) around 112 externally reachable entry points fed with deterministic mutations of valid inputs",
          "exploration",
-         "111 entry points (all Unmarshal methods of messages/types/pac/kadmin/spnego/gssapi, decrypt-then-decode paths with the mutated plaintext re-sealed under the right key so that it survives the integrity check, AP-REQ/SPNEGO/basic-auth verification, keytab/ccache/krb5.conf parsers, asn1tools helpers, etype DecryptMessage/VerifyIntegrity per etype, and the live client: AS/TGS/kpasswd replies and raw TCP streams served by a simulated KDC) x per corpus input: every prefix, single-byte substitutions (8 values per position, all 256 in the thorough tier), DER length and count corruptions per element, empty-sequence and element-removal rewrites, binary length/count/offset field corruptions, chunk and line operations, seeded havoc. About 4.3 million calls per quick run, 92 million per thorough run. Each call must return (value or error) without panic, within 10 s, allocating at most 1 MiB + 1 KiB per input byte; a process-fatal event is attributed to the exact case through the progress log.",
-         "Decides only the inputs generated (no coverage feedback: go test -fuzz instrumentation is not used because its workers cannot run under the allocation meter). The allocation bound 1 MiB + 1 KiB/byte is the harness's reading of 'out of proportion'. Known finding: unchecked element counts in the dependency rpc/v2/ndr (see KNOWN_FINDINGS.jsonl); fingerprints of allocation findings name the allocating function, so an unbounded allocation elsewhere is still reported.",
+         "112 entry points (all Unmarshal methods of messages/types/pac/kadmin/spnego/gssapi, decrypt-then-decode paths with the mutated plaintext re-sealed under the right key so that it survives the integrity check, AP-REQ/SPNEGO/basic-auth verification, keytab/ccache/krb5.conf parsers, asn1tools helpers, etype DecryptMessage/VerifyIntegrity per etype, and the live client: AS/TGS/kpasswd replies and raw TCP streams served by a simulated KDC) x per corpus input: every prefix, single-byte substitutions (8 values per position, all 256 in the thorough tier), DER length and count corruptions per element, empty-sequence and element-removal rewrites, binary length/count/offset field corruptions (a fixed hostile list, plus every signed value that makes a plausible field point at another offset of the input), chunk and line operations, seeded havoc; one entry point works on a buffer above 64 KiB. About 4.3 million calls per quick run, 92 million per thorough run. Each call must return (value or error) without panic, within 10 s, allocating at most 1 MiB + 1 KiB per input byte; a process-fatal event is attributed to the exact case through the progress log.",
+         "Decides only the inputs generated (no coverage feedback: go test -fuzz instrumentation is not used because its workers cannot run under the allocation meter); the thorough tier reports the statement coverage reached per anchored file. The allocation bound 1 MiB + 1 KiB/byte is the harness's reading of 'out of proportion'. Known finding: unchecked element counts in the dependency rpc/v2/ndr (see KNOWN_FINDINGS.jsonl); fingerprints of allocation findings name the allocating function, so an unbounded allocation elsewhere is still reported.",
          "5.C04"),
  "C09": ("runtime monitor with fault-injecting simulated KDC under a virtual clock: one named perturbation per reply, tagged from RFC 4120 3.1.5/3.3.4",
          "exploration",
